@@ -158,6 +158,17 @@ func c16GenSqlPool(r *common.Rand, np int) []common.JEvent {
 				tags = append(tags, []string{"X", common.Pick(r, c16SqlFree)})
 			}
 		}
+		if r.Chance(25) {
+			// two different values under one tag letter: a join with the tag table yields this event twice
+			switch r.Intn(3) {
+			case 0:
+				tags = append(tags, []string{"p", c16SqlPKs[0]}, []string{"p", c16SqlPKs[1]})
+			case 1:
+				tags = append(tags, []string{"t", c16SqlFree[0]}, []string{"t", c16SqlFree[1]})
+			default:
+				tags = append(tags, []string{"e", c16SqlID(0)}, []string{"e", c16SqlID(1 % np)})
+			}
+		}
 		return tags
 	}
 	for i := 0; i < np; i++ {
@@ -241,10 +252,19 @@ func c16GenSqlFilter(r *common.Rand, ids []string, sel int) common.JFilter {
 			switch names[i] {
 			case "e":
 				vals = c16SqlSubset(r, ids, 0, 2)
+				if r.Chance(30) {
+					vals = []string{c16SqlID(0), c16SqlID(1 % len(ids))}
+				}
 			case "p":
 				vals = c16SqlSubset(r, c16SqlPKs, 0, 2)
+				if r.Chance(30) {
+					vals = []string{c16SqlPKs[0], c16SqlPKs[1]}
+				}
 			default:
 				vals = c16SqlSubset(r, c16SqlFree, 0, 2)
+				if r.Chance(30) {
+					vals = []string{c16SqlFree[0], c16SqlFree[1]}
+				}
 			}
 			tcs = append(tcs, common.JTagCond{Name: names[i], Vals: vals})
 			names = append(names[:i], names[i+1:]...)
